@@ -3,9 +3,18 @@
     PARTIAL.  The refinement of every operation to the abstract message operations is decided each
     run by the correspondence and the abstract-effect oracle (gen/hist.py).  Proved here: the byte
     level effect of insertion (the record is spliced at the insertion offset of the packet with one
-    count incremented, nothing else moves) and the frame of the TTL setter. *)
+    count incremented, nothing else moves), the frame of the TTL setter, and the effect of the TTL
+    setter on what a reader sees (C09_set_ttl_effect): on a section that reads declaratively as the
+    records [l] (Spec/RecordSpec.v), after set_rr_ttl t on the cursor of the k-th record the section
+    walk returns the views of [l] with the k-th TTL replaced by [t] and nothing else changed - under
+    the hypothesis that no owner name of the section is read through the four bytes written.  That
+    hypothesis cannot be dropped: C09_set_ttl_without_it_refuted exhibits an accepted packet in which
+    the second record's owner is a pointer to the first record's TTL; the same input renames the
+    second record in the implementation (known finding data-pointer). *)
 From DV Require Import Model.Base Model.NameCheck Model.Parser Model.Header Model.Readers Model.Uncompress
-  Model.Mutate Proofs.Hoare Proofs.HeaderBits Proofs.InsertLemmas.
+  Model.Mutate Spec.NameSpec Spec.PacketSpec Spec.RecordSpec Proofs.Hoare Proofs.HeaderBits Proofs.InsertLemmas
+  Proofs.WalkValues Proofs.SetTtl.
+From Coq Require Import Lia.
 
 Theorem C09_insert_appends : forall sec rr v it s',
   insert_core sec rr (v, it) = (s', Ok tt) ->
@@ -25,3 +34,87 @@ Theorem C09_set_ttl_frame : forall ttl v it s',
   only_bytes_changed (pp_packet v) (pp_packet (fst s')) (it_name_end it + 4) (it_name_end it + 8).
 Proof. exact set_ttl_frame. Qed.
 Print Assumptions C09_set_ttl_frame.
+
+Theorem C09_set_ttl_effect : forall p v sec count off l e k r t it,
+  bytes_ok p -> pp_packet v = p -> 12 <= off ->
+  records_at p off l e -> e <= length p -> count = N.of_nat (length l) ->
+  (match sec with
+   | SAnswer => hdr_ancount p = Ok count /\ pp_offset_answers v = (if (0 <? count)%N then Some off else None)
+   | SNameServers => hdr_nscount p = Ok count /\ pp_offset_nameservers v = (if (0 <? count)%N then Some off else None)
+   | SAdditional => hdr_arcount p = Ok count /\ pp_offset_additional v = (if (0 <? count)%N then Some off else None)
+   | _ => False
+   end) ->
+  nth_error l k = Some r -> it_offset it = Some (rv_off r) -> it_name_end it = rv_name_end r ->
+  (t < 4294967296)%N ->
+  (forall r', In r' l -> forall i, name_reads p (rv_off r') i -> i < rv_name_end r + 4 \/ rv_name_end r + 8 <= i) ->
+  exists v', m_set_ttl t (v, it) = ((v', it), Ok tt) /\
+    only_bytes_changed p (pp_packet v') (rv_name_end r + 4) (rv_name_end r + 8) /\
+    walk_views v sec = Ok (map (view_of p) l) /\
+    walk_views v' sec = Ok (map (view_of p) (replace_nth l k (rv_with_ttl r t))).
+Proof. exact set_ttl_effect. Qed.
+Print Assumptions C09_set_ttl_effect.
+
+(** Non-vacuity: the hypotheses of C09_set_ttl_effect hold for the answer section of a plain response
+    (owner name written as a pointer to the question; its footprint is bytes 29, 30 and 12..24). *)
+Definition sample_response : bytes :=
+  [0;7; 129;128; 0;1; 0;1; 0;0; 0;0; 7;101;120;97;109;112;108;101; 3;99;111;109; 0; 0;1; 0;1;
+   192;12; 0;1; 0;1; 0;0;0;60; 0;4; 10;0;0;1]%N.
+Definition sample_rec : rec_view :=
+  {| rv_off := 29; rv_labels := [[101;120;97;109;112;108;101]; [99;111;109]]%N; rv_name_end := 31;
+     rv_type := 1; rv_class := 1; rv_ttl := 60; rv_rdlen := 4 |}.
+
+Example C09_sample_record_at : record_at sample_response sample_rec 45.
+Proof.
+  unfold record_at, sample_rec. cbn [rv_off rv_labels rv_name_end rv_type rv_class rv_ttl rv_rdlen].
+  split.
+  { split; [cbn; lia|]. cbn [length sample_response].
+    eapply (NPtr sample_response 29 _ 29 15 255 192 12 7); try reflexivity; try lia; try (vm_compute; lia); try discriminate.
+    change (ptr_target 192 12) with 12.
+    eapply (NLabel sample_response 12 _ 12 15 255 7 [[99;111;109]%N]); try reflexivity; try lia; try (vm_compute; lia).
+    eapply (NLabel sample_response 20 _ 12 15 247 3 []); try reflexivity; try lia; try (vm_compute; lia).
+    eapply (NRoot sample_response 24); try reflexivity; vm_compute; lia. }
+  repeat split; try (eexists _, _; repeat split; reflexivity); try (eexists _, _, _, _; repeat split; reflexivity); try discriminate; vm_compute; lia.
+Qed.
+
+Example C09_sample_footprint : forall i, name_reads sample_response 29 i -> i < 35 \/ 39 <= i.
+Proof.
+  intros i H.
+  destruct (reads_ptr sample_response 29 192 12 i eq_refl eq_refl eq_refl H) as [->|[->|H1]]; [lia|lia|].
+  change (ptr_target 192 12) with 12 in H1.
+  destruct (reads_label sample_response 12 7 i eq_refl ltac:(lia) ltac:(lia) H1) as [->|[Hr|H2]]; [lia|cbn in Hr; lia|].
+  change (12 + N.to_nat 7 + 1) with 20 in H2.
+  destruct (reads_label sample_response 20 3 i eq_refl ltac:(lia) ltac:(lia) H2) as [->|[Hr|H3]]; [lia|cbn in Hr; lia|].
+  change (20 + N.to_nat 3 + 1) with 24 in H3.
+  rewrite (reads_root sample_response 24 i eq_refl H3). lia.
+Qed.
+
+Example C09_set_ttl_hypotheses_met :
+  exists v, parse sample_response = Ok v /\ pp_offset_answers v = Some 29 /\ hdr_ancount sample_response = Ok 1%N /\
+    records_at sample_response 29 [sample_rec] 45 /\
+    (forall r', In r' [sample_rec] -> forall i, name_reads sample_response (rv_off r') i -> i < 35 \/ 39 <= i).
+Proof.
+  eexists. split; [vm_compute; reflexivity|]. split; [reflexivity|]. split; [reflexivity|].
+  split; [change 29 with (rv_off sample_rec); econstructor; [exact C09_sample_record_at|constructor]|].
+  intros r' [<-|[]] i H. exact (C09_sample_footprint i H).
+Qed.
+
+(** The footprint hypothesis is necessary: answer 1 has TTL 0x01620000, answer 2's owner name is a
+    pointer to that TTL field and reads "b"; after set_rr_ttl 0x01630000 on answer 1 it reads "c". *)
+Definition data_pointer_packet : bytes :=
+  [0;1; 129;128; 0;1; 0;2; 0;0; 0;0;  1;97;0; 0;1; 0;1;
+   192;12; 0;1; 0;1; 1;98;0;0; 0;4; 1;2;3;4;
+   192;25; 0;1; 0;1; 0;0;0;5; 0;4; 5;6;7;8]%N.
+Definition view_name (x : view) : bytes := let '(_, _, txt, _, _, _, _, _) := x in txt.
+
+Theorem C09_set_ttl_without_it_refuted :
+  exists v v' it,
+    parse data_pointer_packet = Ok v /\ m_set_ttl 23265280 (v, it) = ((v', it), Ok tt) /\
+    it_offset it = Some 19 /\
+    (exists l, walk_views v SAnswer = Ok l /\ map view_name l = [[97]; [98]]%N) /\
+    (exists l', walk_views v' SAnswer = Ok l' /\ map view_name l' = [[97]; [99]]%N).
+Proof.
+  eexists _, _, {| it_section := SAnswer; it_offset := Some 19; it_offset_next := 35; it_name_end := 21; it_rrs_left := 1 |}.
+  split; [vm_compute; reflexivity|]. split; [vm_compute; reflexivity|]. split; [reflexivity|].
+  split; eexists; (split; [vm_compute; reflexivity|reflexivity]).
+Qed.
+Print Assumptions C09_set_ttl_without_it_refuted.
